@@ -173,8 +173,7 @@ func main() {
 		}
 	}
 	rep.Evaluations = len(cases)
-	// An oracle failure explains a diff in the same case: keep diffs only for
-	// cases without oracle failures, and cap the report.
+	// Cap the report: at most three failures per class.
 	rep.Failures = pruneFailures(rep.Failures)
 	rep.WallS = time.Since(start).Seconds()
 	data, _ := json.MarshalIndent(rep, "", " ")
@@ -189,26 +188,17 @@ func main() {
 }
 
 func pruneFailures(fs []Failure) []Failure {
-	hasOracle := map[string]bool{}
-	for _, f := range fs {
-		if f.Kind == "oracle" {
-			hasOracle[caseKey(f.Case)] = true
-		}
-	}
 	perClass := map[string]int{}
 	var out []Failure
+	// Smallest cases first: they make the best replays.
+	sort.SliceStable(fs, func(i, j int) bool { return len(fs[i].Case.Lines) < len(fs[j].Case.Lines) })
 	for _, f := range fs {
-		if f.Kind == "diff" && hasOracle[caseKey(f.Case)] {
-			continue
-		}
-		perClass[f.Class]++
-		if perClass[f.Class] > 3 {
+		perClass[f.Kind+f.Class]++
+		if perClass[f.Kind+f.Class] > 3 {
 			continue
 		}
 		out = append(out, f)
 	}
-	// Smallest cases first: they make the best replays.
-	sort.SliceStable(out, func(i, j int) bool { return len(out[i].Case.Lines) < len(out[j].Case.Lines) })
 	return out
 }
 
